@@ -403,8 +403,8 @@ Section Arms.
     exists st', PT start last st = (Ok (Some (KAbstractLiteral, VAbsInt txt n, None)), st') /\ At st' rest.
   Proof.
     intros start last st txt n rest Hh Ht Hv HL HF HA Hf.
-    unfold num_follow in HF. apply andb_true_iff in HF. destruct HF as [HF _]. apply andb_true_iff in HF. destruct HF as [HF H35]. apply andb_true_iff in HF. destruct HF as [Hr H46].
-    apply negb_true_iff in Hr, H46, H35.
+    unfold num_follow in HF. apply andb_true_iff in HF. destruct HF as [HF _]. apply andb_true_iff in HF. destruct HF as [HF H58]. apply andb_true_iff in HF. destruct HF as [HF H35]. apply andb_true_iff in HF. destruct HF as [Hr H46].
+    apply negb_true_iff in Hr, H46, H35, H58.
     destruct txt as [|a t1]; [discriminate|]. cbn [hd_sat] in Hh.
     assert (La : a < 256) by (unfold is_digit, in_range in Hh; lia).
     unfold parse_token. unfold bind at 1. cbn [app] in HA. rewrite (peek_cons d HD _ _ _ HA La). cbv beta iota.
@@ -425,11 +425,13 @@ Section Arms.
       { destruct (lowercase c =? 46) eqn:E1; [|reflexivity]. apply N.eqb_eq in E1. apply (lowercase_nonidc _ _ Hr) in E1; lia. }
       assert (N35 : (lowercase c =? 35) = false).
       { destruct (lowercase c =? 35) eqn:E1; [|reflexivity]. apply N.eqb_eq in E1. apply (lowercase_nonidc _ _ Hr) in E1; lia. }
+      assert (N58 : (lowercase c =? 58) = false).
+      { destruct (lowercase c =? 58) eqn:E1; [|reflexivity]. apply N.eqb_eq in E1. apply (lowercase_nonidc _ _ Hr) in E1; lia. }
       assert (NL : forall v, 97 <= v <= 122 -> (lowercase c =? v) = false).
       { intros v Hv'. destruct (lowercase c =? v) eqn:E1; [|reflexivity]. apply N.eqb_eq in E1.
         assert (Hv2 : v <= 122) by lia. pose proof (lowercase_nonidc _ _ Hr Hv2 E1) as E2. subst v.
         unfold is_idc, is_alnum, is_alpha, is_lower, in_range in Hr. lia. }
-      rewrite N46, (NL 101), N35 by lia. unfold is_bs_letter. rewrite !NL by lia. cbn [orb].
+      rewrite N46, (NL 101), N35, N58 by lia. unfold is_bs_letter. rewrite !NL by lia. cbn [orb].
       unfold abs_plain, bind, of_result, ret, lit_int. cbn [fst snd]. eexists. split; [reflexivity|exact HA'].
   Qed.
 End Arms.
